@@ -14,7 +14,7 @@ type Op struct {
 	B     *Blk   `json:"b,omitempty"`
 	H     int64  `json:"h,omitempty"`
 	N     int    `json:"n,omitempty"`
-	Cache bool   `json:"cache,omitempty"`
+	Cache int    `json:"cache,omitempty"` // size of the state cache given to the block write database (0 = none)
 }
 
 func (o Op) Coq() string {
@@ -63,6 +63,24 @@ func RandomParams(r *vh.Rand, reopen bool) Params {
 		p.Blocks = r.Range(3, 10)
 	}
 	return p
+}
+
+// WriteCacheSize: the configuration of the write-side state cache (LeveldbBlockWrite.SetStateCache, handed
+// to the temp and read by the permanent merge): none, smaller than a block's number of states (entries get
+// evicted, so the cache does NOT hold every state of its block), or large.
+func WriteCacheSize(r *vh.Rand) int {
+	switch c := r.Intn(10); {
+	case c < 4:
+		return 0
+	case c < 6:
+		return 1
+	case c < 7:
+		return 2
+	case c < 8:
+		return 3
+	default:
+		return 64
+	}
 }
 
 func subset(r *vh.Rand, n, max int) []int {
@@ -121,7 +139,7 @@ func Generate(r *vh.Rand, w *World, p Params) ([]Op, Cfg) {
 			}
 			sh.Known = subset(r, p.NKn, 3)
 			b := w.NewBlock(sh)
-			ops = append(ops, Op{T: "W", B: b, Cache: r.Chance(1, 3)})
+			ops = append(ops, Op{T: "W", B: b, Cache: WriteCacheSize(r)})
 			if good {
 				if !spec.Write(b) {
 					panic("generator: good write refused by the oracle")
